@@ -210,3 +210,11 @@ Definition fields_of (y o secs frac off secform : Z) (use_z : bool) : fields :=
     (frac_shown nd sub)
     (if use_z && (off =? 0) then Zulu 90
      else Numeric (if off <? 0 then 1 else 0) (Z.abs off / 3600) (Z.abs off / 60 mod 60)).
+
+(** the nanosecond field of a value after truncation to the printed precision (the leap-second
+    flag, 10^9, is kept) *)
+Definition truncated_frac (secform frac : Z) : Z :=
+  let leap := 1000000000 <=? frac in
+  let sub := if leap then frac - 1000000000 else frac in
+  let unit := 10 ^ (9 - frac_digits secform sub) in
+  sub / unit * unit + (if leap then 1000000000 else 0).
